@@ -463,7 +463,7 @@ PROPS = {
         "check": "c20_any_check",
         "diag": "c20_any_diag",
         "timeout_quick": 900,
-        "theories": ["theories/Base.v", "theories/Life.v", "theories/LifeProofs.v", "theories/Inflight.v", "theories/InflightProofs.v", "gen/Facts.v", "theories/Claim.v", "theories/ClaimProofs.v"],
+        "theories": ["theories/Base.v", "theories/Life.v", "theories/LifeProofs.v", "theories/Inflight.v", "theories/InflightProofs.v", "gen/Facts.v", "theories/Claim.v", "theories/ClaimProofs.v", "theories/Winddown.v"],
         "check_theories": ["theories/Check20.v"],
         "level_text": "Coq theorems over the lifecycle transition system (started flag, live loops, results queued for "
                       "Wait): for every sequence of starts (succeeding, failing at connect or at the first keep-alive), "
